@@ -23,7 +23,7 @@ def measurement_case(draw, tier, kinds, with_ham=False, orthonormal=None, restri
         restricted = kind in gens.RESTRICTED_ONLY or (nelec[0] == nelec[1] and draw(st.integers(0, 3)) == 0)
     else:
         restricted = restricted_walker
-    w = draw(gens.walker(norb, nelec, restricted=restricted))
+    w = draw(gens.walker(norb, nelec, restricted=restricted, frame=gens.reference_frame(kind, norb, nelec, params)))
     case = {"kind": kind, "norb": norb, "nelec": list(nelec), "params": params, "walker": w, "restricted": restricted}
     if with_ham:
         spin_dep = kind in ("uhf", "ghf", "noci", "multislater", "UCISD", "GCISD") and not restricted and draw(st.booleans())
